@@ -13,7 +13,7 @@ use sle::layout::StorageLayout;
 use sle::tc::abi::AbiType;
 
 #[derive(Clone, Debug)]
-enum Tk {
+pub(crate) enum Tk {
     Sload0,
     Cdl0,
     Mask(U),
@@ -27,7 +27,7 @@ enum Tk {
     Sstore(u64),
 }
 
-fn alphabet() -> Vec<Tk> {
+pub(crate) fn alphabet() -> Vec<Tk> {
     let mut v = vec![Tk::Sload0, Tk::Cdl0, Tk::Or, Tk::Dup1, Tk::Swap1, Tk::Sstore(0), Tk::Sstore(1)];
     for m in [
         U::from_u64(0xff),
@@ -51,7 +51,7 @@ fn alphabet() -> Vec<Tk> {
     v
 }
 
-fn arity(t: &Tk) -> (usize, usize) {
+pub(crate) fn arity(t: &Tk) -> (usize, usize) {
     match t {
         Tk::Sload0 | Tk::Cdl0 => (0, 1),
         Tk::Mask(_) | Tk::Shr(_) | Tk::Shl(_) | Tk::DivC(_) | Tk::MulC(_) => (1, 1),
@@ -63,10 +63,15 @@ fn arity(t: &Tk) -> (usize, usize) {
 }
 
 fn expand(seq: &[Tk]) -> Vec<u8> {
+    expand_with(seq, 0)
+}
+
+/// The same programs with the loaded slot chosen by the caller (C05 runs them with slot 5).
+pub(crate) fn expand_with(seq: &[Tk], load_slot: u64) -> Vec<u8> {
     let mut t: Vec<Tok> = Vec::new();
     for x in seq {
         match x {
-            Tk::Sload0 => t.extend([p(0), o(op::SLOAD)]),
+            Tk::Sload0 => t.extend([p(load_slot), o(op::SLOAD)]),
             Tk::Cdl0 => t.extend([p(0), o(op::CALLDATALOAD)]),
             Tk::Mask(m) => t.extend([pu(*m), o(op::AND)]),
             Tk::Shr(s) => t.extend([pu(*s), o(op::SHR)]),
